@@ -54,7 +54,7 @@ COMPONENTS = {
 
 OPS = ["set_weights", "set_means", "set_variances", "set_floor", "em_step", "em_step",
        "deepcopy", "pickle", "hdf5_from", "hdf5_load", "nudge_variances", "nudge_floor",
-       "em_many", "aug_assign", "edit_reassign", "lend_arrays"]
+       "em_many", "aug_assign", "edit_reassign", "lend_arrays", "parallel_stats"]
 
 
 def setup():
@@ -119,6 +119,15 @@ def gen_case(rng, tier):
             # the caller keeps the array it assigned, edits it in place and assigns it again
             ops.append({"op": name, "attr": rng.choice(["variance_thresholds", "variances", "means"]),
                         "k": rng.choice([0.3, 0.5, 2.0, 3.0, 10.0])})
+        elif name == "parallel_stats":
+            # several caller threads use the machine at the same time (what Dask's threaded
+            # scheduler does with the E-step tasks of one iteration); every one of them must
+            # see the current visible parameters
+            n = rng.randint(4, 10)
+            X = sig6(means[rs.randint(0, c, size=n)] + rs.randn(n, d) * scale * 1.2)
+            ops.append({"op": name, "X": L(X), "parts": rng.randint(2, 4),
+                        "first": rng.choice(["variances", "weights", "floor", "nothing"]),
+                        "sched": dict(gen_sched(rng), mode="threads")})
         elif name == "lend_arrays":
             # `adapted.variances = ubm.variances`: the arrays this machine holds (and the ones
             # the caller assigned to it) are assigned to ANOTHER machine with other floors,
@@ -334,6 +343,50 @@ def run_case(case, replay=None):
                                 keep *= k
                             setattr(m, attr, keep)
                             rec.probe("edited_array_reassigned")
+                    elif name == "parallel_stats":
+                        import dask
+                        Xp = A(o["X"])
+                        blocks = np.array_split(Xp, o["parts"])
+                        blocks = [b for b in blocks if len(b)]
+                        # the concurrent calls are the FIRST use of the machine after an
+                        # assignment (anything rebuilt lazily is rebuilt under contention)
+                        if o.get("first") == "variances":
+                            m.variances = np.array(m.variances, float) * 1.3
+                        elif o.get("first") == "weights":
+                            w = np.array(m.weights, float)[::-1].copy()
+                            m.weights = w
+                        elif o.get("first") == "floor":
+                            m.variance_thresholds = float(np.mean(np.asarray(m.variances))) * 1.1
+
+                        def go(blocks=blocks):
+                            tasks = [dask.delayed(m.acc_stats)(b) for b in blocks] + \
+                                    [dask.delayed(m.log_likelihood)(b) for b in blocks]
+                            return dask.compute(*tasks)
+                        outs = rec.run(o["sched"], go, label=f"op{i}")
+                        fr = _fresh(m)
+                        for b, st in zip(blocks, outs[:len(blocks)]):
+                            ref = fr.acc_stats(b)
+                            for fld in ("n", "sum_px", "sum_pxx"):
+                                if rel_diff(np.asarray(getattr(st, fld), float),
+                                            np.asarray(getattr(ref, fld), float), scale=1e-300) > TOL:
+                                    return Result.violation(
+                                        "stale-state", {"after_op": i, "op": name,
+                                                        "observable": "concurrent acc_stats." + fld},
+                                        **rec.fields())
+                            if abs(float(st.log_likelihood) - float(ref.log_likelihood)) > \
+                                    TOL * max(1.0, abs(float(ref.log_likelihood))):
+                                return Result.violation(
+                                    "stale-state", {"after_op": i, "op": name,
+                                                    "observable": "concurrent acc_stats.log_likelihood"},
+                                    **rec.fields())
+                        for b, ll in zip(blocks, outs[len(blocks):]):
+                            if rel_diff(np.asarray(ll, float), np.asarray(fr.log_likelihood(b), float),
+                                        scale=1e-300) > TOL:
+                                return Result.violation(
+                                    "stale-state", {"after_op": i, "op": name,
+                                                    "observable": "concurrent log_likelihood"},
+                                    **rec.fields())
+                        rec.probe("concurrent_callers")
                     elif name == "lend_arrays":
                         other = GMMMachine(m.n_gaussians)
                         other.variance_thresholds = float(np.mean(np.asarray(m.variances))) * o["floor_factor"]
